@@ -162,17 +162,33 @@ func sioErrKind(err error) string {
 	return "other-" + hx.Hex([]byte(s))
 }
 
-// sioCalls calls rd.Read until io.EOF or until maxCalls calls were made.
+// sioCalls calls rd.Read until io.EOF or until maxCalls calls were made.  Every returned
+// sequence is KEPT and the history is rendered only after the last call: a record a caller
+// holds on to must not change under a later Read (a reader that hands out its own buffer
+// shows as an earlier record rewritten by a later, shorter one).
 func sioCalls(rd seqio.Reader, withQ bool, maxCalls int) string {
-	var out []string
+	type call struct {
+		s   seq.Sequence
+		err error
+	}
+	var kept []call
+	capped := true
 	for i := 0; i < maxCalls; i++ {
 		s, err := rd.Read()
+		kept = append(kept, call{s, err})
+		if s == nil && err == io.EOF {
+			capped = false
+			break
+		}
+	}
+	var out []string
+	for _, c := range kept {
+		s, err := c.s, c.err
 		switch {
 		case s == nil && err == nil:
 			out = append(out, "N")
 		case s == nil && err == io.EOF:
 			out = append(out, "EOF")
-			return strings.Join(out, " ")
 		case s == nil:
 			out = append(out, "E:"+sioErrKind(err))
 		case err == nil:
@@ -181,7 +197,9 @@ func sioCalls(rd seqio.Reader, withQ bool, maxCalls int) string {
 			out = append(out, "X:"+sioErrKind(err)+":"+sioSeqFields(s, withQ))
 		}
 	}
-	out = append(out, "CAP")
+	if capped {
+		out = append(out, "CAP")
+	}
 	return strings.Join(out, " ")
 }
 
@@ -371,6 +389,54 @@ func sioRecords(g *hx.Gen, alpha string, width int, withQ bool, enc alphabet.Enc
 	rs := make([]sioRec, n)
 	for i := range rs {
 		l := sioLen(g, width)
+		rs[i] = sioRec{name: sioName(g), desc: sioDesc(g), letters: g.Letters(pool, l)}
+		if withQ {
+			rs[i].quals = sioQuals(g, enc, l)
+		}
+	}
+	return rs
+}
+
+// sioRecordsDecreasing draws well-formed records whose sequence lengths strictly decrease:
+// a long one, then strictly shorter non-empty ones, then an empty one (and sometimes one more
+// short record after it).  A reader that re-uses the storage of a record it already returned
+// overwrites the earlier record only when a later one fits into it, i.e. in this order.
+func sioRecordsDecreasing(g *hx.Gen, alpha string, width int, withQ bool, enc alphabet.Encoding, maxRecs int) []sioRec {
+	pool := sioLetterPool(alpha)
+	first := g.Pick(3, 8, 40, 90, width, width+1, 2*width+1, g.Range(3, 200))
+	if g.Chance(0.03) {
+		first = g.Pick(4096, 4097, 8193)
+	}
+	if first < 3 {
+		first = 3
+	}
+	if first > 20000 {
+		first = 20000
+	}
+	lens := []int{first}
+	if g.Chance(0.2) { // two records of the same length in front
+		lens = append(lens, first)
+	}
+	for l := first; len(lens) < maxRecs-1 && l > 1; {
+		if g.Chance(0.5) {
+			l = g.Range(1, l-1)
+		} else {
+			l = l - g.Pick(1, 1, 2)
+			if l < 1 {
+				l = 1
+			}
+		}
+		lens = append(lens, l)
+		if g.Chance(0.25) {
+			break
+		}
+	}
+	lens = append(lens, 0)
+	if len(lens) < maxRecs && g.Chance(0.4) {
+		lens = append(lens, g.Range(1, first))
+	}
+	rs := make([]sioRec, len(lens))
+	for i, l := range lens {
 		rs[i] = sioRec{name: sioName(g), desc: sioDesc(g), letters: g.Letters(pool, l)}
 		if withQ {
 			rs[i].quals = sioQuals(g, enc, l)
